@@ -100,7 +100,13 @@ def build_plain(scr, kind):
     elif kind == "plain":
         cmd = ["gcc", "-O1", "-g"] + base + srcs + [os.path.join(VERIF, "harness/drive.c"), "-lidn2", "-Wl,--wrap=idn2_to_ascii_8z"]
     elif kind == "cli":
-        cmd = [CC] + SAN.split() + base + ["-D__EXTENSIONS__"] + srcs + [os.path.join(d, "bin/main.c"), os.path.join(d, "bin/utf8_decode.c"), "-lidn2"]
+        # the real tool, built by the repository's Makefiles (shared library + bin/eav), under ASan+UBSan
+        p = subprocess.run(["make", "-C", d, "-j4", "CC=" + CC, "CFLAGS=" + SAN, "LDFLAGS=-fsanitize=address,undefined", "FORCE_IDN=idn2"],
+                           stdout=subprocess.PIPE, stderr=subprocess.STDOUT)
+        exe = os.path.join(d, "bin/eav")
+        if p.returncode != 0 or not os.path.exists(exe):
+            raise BuildError("the eav tool does not build:\n" + p.stdout.decode(errors="replace")[-3000:])
+        return exe
     exe = os.path.join(d, kind + ".exe")
     p = subprocess.run(cmd + ["-o", exe], stdout=subprocess.PIPE, stderr=subprocess.STDOUT)
     if p.returncode != 0:
